@@ -1542,9 +1542,14 @@ class H2Connection:
         control windows by the delta in the settings values.
         """
         delta = new_value - old_value
+        frames = []
 
         for stream in self.streams.values():
-            stream._inbound_flow_control_change_from_settings(delta)
+            frames.extend(
+                stream._inbound_flow_control_change_from_settings(delta)
+            )
+
+        return frames
 
     def receive_data(self, data):
         """
@@ -1841,11 +1846,11 @@ class H2Connection:
 
         # This is an ack of the local settings.
         if 'ACK' in frame.flags:
-            changed_settings = self._local_settings_acked()
+            changed_settings, frames = self._local_settings_acked()
             ack_event = SettingsAcknowledged()
             ack_event.changed_settings = changed_settings
             events.append(ack_event)
-            return [], events
+            return frames, events
 
         # Add the new settings.
         self.remote_settings.update(frame.settings)
@@ -2076,10 +2081,11 @@ class H2Connection:
         Handle the local settings being ACKed, update internal state.
         """
         changes = self.local_settings.acknowledge()
+        frames = []
 
         if SettingCodes.INITIAL_WINDOW_SIZE in changes:
             setting = changes[SettingCodes.INITIAL_WINDOW_SIZE]
-            self._inbound_flow_control_change_from_settings(
+            frames = self._inbound_flow_control_change_from_settings(
                 setting.original_value,
                 setting.new_value,
             )
@@ -2098,7 +2104,7 @@ class H2Connection:
             # respect it.
             self.decoder.max_allowed_table_size = setting.new_value
 
-        return changes
+        return changes, frames
 
     def _stream_id_is_outbound(self, stream_id):
         """
